@@ -20,7 +20,7 @@ import (
 //
 //	M1 everything written into the rebuilt _outs buffer is JSON by construction: a constant piece of
 //	   punctuation, bytes whose static type is json.RawMessage (a decoded component of the input or
-//	   an encoder's result), the result of json.Marshal / strconv quoting, or a write that is only
+//	   an encoder's result), the result of json.Marshal / strconv number formatting (not strconv.Quote), or a write that is only
 //	   reachable on paths that end in a definitely non-nil error.  A raw string (map key, path) is not.
 //	M2 every path through a writer that can return a nil error has written a value: `"key":` followed
 //	   by nothing is not JSON.
@@ -36,7 +36,7 @@ func init() {
 	Registry["C13"] = Entry{
 		Run: runC13,
 		Explanation: "Decides structural necessary conditions of 'final outputs are materialised faithfully under outs/' (thin claim): " +
-			"M1 every write into the buffer that becomes the rewritten _outs is JSON by construction (constant punctuation, json.RawMessage-typed bytes, json.Marshal/strconv results); raw strings only on paths that end in a non-nil error, " +
+			"M1 every write into the buffer that becomes the rewritten _outs is JSON by construction (constant punctuation, json.RawMessage-typed bytes, json.Marshal results, strconv integer/bool formatting); raw strings only on paths that end in a non-nil error, " +
 			"M2 every path through a writer (moveOutFiles, moveOutFile, moveOutDir, moveOutArrayDir, copyOutSymlink and their helpers) that can return a nil error has written a value, " +
 			"M3 in every loop that writes separators no iteration completes without writing its element, " +
 			"M5 the destination of every os.Rename/os.Symlink into outs/ derives from GetOutFilename() of the member being moved, " +
@@ -44,6 +44,7 @@ func init() {
 			"M7 a relative link target is joined with the directory of the very link it was read from; M8 a missing source is recorded as null only after the destination under outs/ was looked at. " +
 			"M9 a decoded map's key is joined into a path only behind IsLegalUnixFilename(key) == nil; M10 a loop collecting the keys of a decoded map collects every key. " +
 			"M11 copyOutSymlink writes no value derived from GetOutFilename(); M12 readers of ArrayType.Elem in post-processing also read Dim; M13 after processStructOuts the value passed in is neither returned nor stored as the element's record. " +
+			"M1 (round 8): strconv.Quote is not accepted as a JSON encoder. " +
 			"NOT decided: file contents, which files exist, symlink arithmetic (relative paths), that the hand-assembled JSON is valid beyond these conditions, display output.",
 		Assumptions: append([]string{
 			"values of static type json.RawMessage hold JSON text (they come from json.Unmarshal into RawMessage-based containers or from encoders); a conversion of a string to json.RawMessage is reported",
@@ -245,8 +246,12 @@ func encoderCall(cl *ssa.Call) (bool, string) {
 	case "encoding/json":
 		return true, "encoding/json." + f.Name()
 	case "strconv":
-		if strings.HasPrefix(f.Name(), "Quote") || strings.HasPrefix(f.Name(), "AppendQuote") ||
-			f.Name() == "Itoa" || strings.HasPrefix(f.Name(), "FormatInt") || strings.HasPrefix(f.Name(), "FormatUint") ||
+		// strconv.Quote is NOT a JSON encoder: it writes \x00, \a, \v and \U0001f600, none of which
+		// JSON knows (round 8: a seed replaced json.Marshal(path) with strconv.Quote(path))
+		if strings.HasPrefix(f.Name(), "Quote") || strings.HasPrefix(f.Name(), "AppendQuote") {
+			return false, "result of strconv." + f.Name() + ": Go string syntax, which is JSON only for printable text (a control or non-BMP character gives \\x.., \\U........ escapes that no JSON reader accepts)"
+		}
+		if f.Name() == "Itoa" || strings.HasPrefix(f.Name(), "FormatInt") || strings.HasPrefix(f.Name(), "FormatUint") ||
 			strings.HasPrefix(f.Name(), "AppendInt") || strings.HasPrefix(f.Name(), "AppendUint") || strings.HasPrefix(f.Name(), "FormatBool") {
 			return true, "strconv." + f.Name()
 		}
